@@ -99,6 +99,7 @@ def build_asset(a, built, tz=None):
     typ = a.pop('type')
     form = a.pop('_date_form', 'datetime')
     container = a.pop('_container', 'list')
+    seq_form = a.pop('_seq_form', 'list')
     node_names = a.pop('nodes', None)
     kw = {}
     for k, v in a.items():
@@ -124,6 +125,9 @@ def build_asset(a, built, tz=None):
             continue
         elif k == 'x_no_heat':
             kw['_no_heat'] = bool(v)
+        elif seq_form != 'list' and isinstance(v, list) and (k.endswith('_bounds') or k.endswith('_bounds_heat')):
+            # numeric sequences handed over as numpy arrays / tuples (objects the user keeps and may reuse)
+            kw[k] = np.asarray(v, dtype=float) if seq_form == 'array' else tuple(v)
         else:
             kw[k] = copy.deepcopy(v)
     nodes = [_node(built, n) for n in node_names] if node_names is not None else None
